@@ -191,16 +191,23 @@ def c_needs(ctx, case):
 # {{{ counts
 
 def model_node_counts(e):
+    # distinct by (type, ==): a composite equal to one already seen (e.g. LeftShift(0.0, a)
+    # and LeftShift(False, a)) is the *same* subexpression and is not entered again
     with_t, without_t = {}, {}
-    for o in occurrences(e):
+    stack = [e]
+    while stack:
+        o = stack.pop()
         try:
             key = (type(o), o)
             hash(key)
         except TypeError:
             key = (type(o), id(o))
+        if key in with_t:
+            continue
         with_t[key] = 1
         if not isinstance(o, (tuple, list)):
             without_t[key] = 1
+        stack.extend(children(o))
     return len(without_t), len(with_t)
 
 
@@ -222,6 +229,20 @@ def model_flops(e, cse_once, seen):
 def c_counts(ctx, case):
     e = case
     lo, hi = model_node_counts(e)
+    # composites that are == but differ in a constant's type (Max((0,)) vs Max((False,))) make
+    # "distinct subexpressions" depend on visiting order: widen to what any order can give
+    amb = {}
+    for o in occurrences(e):
+        if isinstance(o, (p.Expression, tuple)):
+            try:
+                amb.setdefault((type(o), o), set()).add(normal.typed_key(o))
+            except TypeError:
+                pass
+    n_amb = sum(len(v) - 1 for v in amb.values() if len(v) > 1)
+    if n_amb:
+        ctx.count("node_count_type_ambiguous")
+        slack = sum(len(occurrences(k[1])) for k, v in amb.items() if len(v) > 1)
+        lo, hi = lo - slack, hi + slack
     for name, fn in (("get_num_nodes", lambda: get_num_nodes(e)),
                      ("NodeCountMapper", lambda: _ncm(e))):
         ctx.case(None)
